@@ -1003,6 +1003,8 @@ class list_t(object):
         
     def clear(self):
         self.get_model().clear()
+        # Objects are handed out from the backing array
+        self.backing_arr.clear()
 
     def __contains__(self, lhs):
         if get_expr_mode():
